@@ -183,7 +183,7 @@ def run(ctx: Ctx) -> None:
     sbehs = sres.recs("BEH")
     ctx.require(len(sbehs) >= nsim // 2, f"too few simulated histories: {len(sbehs)}")
     mark("sim_tlc")
-    replay_all(ctx, rep, lab, sbehs, f"sim{depth}", stats, shapes=("list", "dict"))
+    replay_all(ctx, rep, lab, sbehs, f"sim{depth}", stats, shapes=("list", "dict", "partial"))
     mark("sim_replay")
     ctx.sample({"source": "tlc-simulate", "wf": sbehs[0]["wf"], "ops": [s["op"] for s in sbehs[0]["steps"]]})
     ctx.note("replay_stats", stats)
